@@ -514,6 +514,11 @@ fn real_variant(sc: &Scenario, r: &mut Rng) -> Scenario {
         cache_cap: *r.pick(&[1, 4, 64]),
     };
     sc.cfg.crash_check = false;
+    // Strict mode only: in free mode the child can meet KF-C01-1 (a stale
+    // value is then verified and stored as it is), and the parent, which
+    // judges the store with a fresh model, cannot know that the run was
+    // exposed - it reported the stored stale value as a crash inconsistency.
+    sc.cfg.strict = true;
     sc.ops.retain(|o| !matches!(o, scenario::Op::Restart | scenario::Op::Drain));
     sc
 }
@@ -687,6 +692,9 @@ fn batch(args: &[String]) {
             let oh = simkit::fnv(
                 format!("{:?}{:?}{:?}", out.failure.as_ref().map(|f| &f.class), out.stats.serves, out.stats.executions).as_bytes(),
             );
+            if std::env::var("VERIF_DEBUG").is_ok() {
+                eprintln!("TRACE i={i} trace_hash={} serves={} executions={} failure={:?}", out.trace_hash, out.stats.serves, out.stats.executions, out.failure.as_ref().map(|f| &f.class));
+            }
             trace_list.push((i, mix(out.trace_hash, oh)));
         }
         let st = serde_json::to_value(&out.stats).unwrap();
